@@ -21,6 +21,7 @@ from bfsa import constaudit as ca
 from bfsa.guard import atoms, disjuncts, dominates, raise_rel, rel, show_rel, unsnap
 from bfsa.layout import builtin_call, is_call_named, meth_call
 from bfsa.load import AnalysisError, NotConst
+from bfsa.heap import Unsupported
 from bfsa.symexec import Exec
 from bfsa.terms import C, NONE, Term, cval, is_const, mk, show, subterms
 
@@ -98,6 +99,64 @@ def const_rules(prog, chk, pid, tier):
             if t * t > 4 * p:
                 ok, why = False, "cofactor %s is inconsistent with Hasse's bound" % hh
         chk.require(ok, P("curve-constants"), E + "ecdsa.curve_" + name, "p, a, b, G, n, h of %s" % name, "", "p and n prime, non-singular, G on the curve, n*G = infinity, cofactor consistent (checker's own arithmetic on the literals)", why)
+    two_torsion_rules(prog, chk, pid, cs)
+
+
+def two_torsion_rules(prog, chk, pid, cs=None):
+    """the library encodes the point at infinity as Y = 0 (every public operation maps Y3 = 0 to INFINITY, every operand with Y = 0 is taken for it): that is only
+    sound when the curve has no affine point with y = 0, i.e. x^3 + a*x + b has no root mod p, i.e. the group has no element of order 2"""
+    P = lambda s: "%s.%s" % (pid, s)
+    cs = cs if cs is not None else curve_literals(prog)
+    for name, c in sorted(cs.items()):
+        p, a, b, h = c["p"], c["a"], c["b"], c["h"]
+        if not ca.is_probable_prime(p):
+            continue
+        root = _cubic_has_root(p, a % p, b % p)
+        chk.require(not root, P("y0-encodes-infinity"), E + "ecdsa.curve_" + name, "x^3 + a*x + b has no root mod p (%s)" % name, "",
+                    "no point of the curve has y = 0, so treating Y = 0 as the point at infinity conflates nothing (gcd(x^p - x, x^3 + a*x + b) = 1, checker's own arithmetic)",
+                    "the curve has a point (x0, 0) of order 2 (cofactor %s): the library takes it for the point at infinity -- T == INFINITY holds, Q + T returns Q, n*(Q + T) counts as infinity so "
+                    "Q + T passes public-key validation and verifies about half of Q's signatures" % (h,))
+
+
+def _cubic_has_root(p: int, a: int, b: int) -> bool:
+    """does x^3 + a*x + b have a root in F_p?  gcd(x^p - x, f) has positive degree iff it does (checker's own polynomial arithmetic)"""
+    f = [b % p, a % p, 0]  # x^3 = -(f0 + f1 x + f2 x^2)
+
+    def mul(u, v):
+        r = [0] * (len(u) + len(v) - 1)
+        for i, x in enumerate(u):
+            if x:
+                for j, y in enumerate(v):
+                    r[i + j] = (r[i + j] + x * y) % p
+        while len(r) > 3:
+            k = r.pop()
+            d = len(r) - 3
+            for i in range(3):
+                r[d + i] = (r[d + i] - k * f[i]) % p
+        return r
+
+    res, base, e = [1], [0, 1], p
+    while e:
+        if e & 1:
+            res = mul(res, base)
+        base = mul(base, base)
+        e >>= 1
+    g = res + [0] * (3 - len(res))
+    g[1] = (g[1] - 1) % p
+
+    def trim(w):
+        while w and w[-1] == 0:
+            w = w[:-1]
+        return w
+
+    u, v = [b % p, a % p, 0, 1], trim(g)
+    while v:
+        while u and len(u) >= len(v):
+            k = u[-1] * pow(v[-1], -1, p) % p
+            d = len(u) - len(v)
+            u = trim([(x - k * (v[i - d] if 0 <= i - d < len(v) else 0)) % p for i, x in enumerate(u)])
+        u, v = v, u
+    return len(u) > 1
 
 
 # ------------------------------------------------------------------------------------------------ R6 canonicity (+ R3 sibling)
@@ -303,6 +362,65 @@ def canon_rules(prog, chk, pid):
             if isinstance(n, ast.UnaryOp) and isinstance(n.op, ast.USub) and isinstance(n.operand, ast.Name) and n.operand.id[:1] in ("X", "Z", "x", "z") and n.operand.id not in ("x1_dummy",):
                 bad.append("%s:%d -%s" % (m.file, n.lineno, n.operand.id))
     chk.require(not bad, P("only-Y-negated"), PJ, "unary minus applied to Y coordinates only", bad[0] if bad else "", "X and Z values handed to the formulas are canonical; only Y may be stored / passed negated (range (-p, p))", "a negated X or Z is passed around: %s" % bad[:3])
+
+
+class _CoordCanon(Canon):
+    """the stored coordinate triple of a PointJacobi: X, Z in [0, p), Y in (-p, p) (negation leaves Y unreduced); anything else is unbounded"""
+
+    def _iv(self, t: Term) -> Iv:
+        if t.op == "sub" and is_const(t.args[1]) and cval(t.args[1]) in (0, 1, 2):
+            b = unsnap(t.args[0])
+            if b.op == "attr" and str(b.args[1]).endswith("__coords"):
+                return COORD_IV["XYZ"[cval(t.args[1])]]
+        return Canon._iv(self, t)
+
+
+def point_equality_rule(prog, chk, pid):
+    """PointJacobi.__eq__ decides equality of group elements, whatever integers represent them: every comparison it makes must decide congruence modulo p for
+    coordinates in their stored ranges -- a residue compared with 0, or two values whose difference stays inside (-p, p).  Comparing two Y coordinates as plain
+    integers does not: -P keeps Y unreduced, so (X, -Y, Z) and (X, p - Y, Z) are the same point with different integers."""
+    P = lambda s: "%s.%s" % (pid, s)
+    fi = prog.cls(PJ).methods.get("__eq__")
+    if fi is None:
+        raise AnalysisError("PointJacobi.__eq__ missing")
+    ex = Exec(prog, policy=lambda e, f, d: False)
+    res = ex.run(fi)
+    cn = _CoordCanon(ex, {}, None)
+    where = "%s:%d" % (fi.file, fi.lineno)
+    cmps = {}
+    for e in res.events:
+        terms = []
+        if e.kind in ("branch", "guard", "guard2"):
+            terms.append(e.d["cond"])
+        if e.kind == "return" and e.stack == (fi.qualname,):
+            terms.append(e.d["value"])
+        for t0 in terms:
+            for t in subterms(unsnap(t0)):
+                if t.op == "cmp" and t.args[0] in ("Eq", "NotEq"):
+                    cmps[t.uid] = (t, e)
+    n = 0
+    for t, e in cmps.values():
+        a, b = unsnap(t.args[1]), unsnap(t.args[2])
+        # only arithmetic on coordinates is of interest (curve objects, INFINITY, classes are compared by their own __eq__)
+        def coordy(x):
+            return any(y.op == "attr" and str(y.args[1]).endswith("__coords") for y in subterms(x)) or any((meth_call(y) or (None, None))[1] in ("x", "y") for y in subterms(x) if y.op == "call")
+        if not (coordy(a) or coordy(b)):
+            continue
+        n += 1
+        if is_const(a) or is_const(b):
+            x = b if is_const(a) else a
+            c0 = cval(a) if is_const(a) else cval(b)
+            iv = cn.iv(x)
+            ok = c0 == 0 and iv.inside_open_unit()
+            why = "the value compared with %r ranges over %s * p" % (c0, iv)
+        else:
+            iv = iv_add(cn.iv(a), iv_neg(cn.iv(b)))
+            ok = iv.inside_open_unit()
+            why = "the difference of the two compared values ranges over %s * p: the same point in two integer representations (Y and Y - p after a negation) compares unequal" % iv
+        chk.require(ok, P("point-equality-mod-p"), fi.qualname, "%s %s %s" % (show(a, 3), "==" if t.args[0] == "Eq" else "!=", show(b, 3)), e.where,
+                    "the comparison decides congruence modulo p for every stored representation of the coordinates", why)
+    if n < 2:
+        raise AnalysisError("PointJacobi.__eq__: expected at least the two coordinate comparisons, found %d" % n)
 
 
 def sibling_rules(prog, chk, pid):
@@ -830,6 +948,16 @@ def mul_add_rules(prog, chk, pid):
         it_ = unsnap(lr.iter) if lr.iter is not None else None
         zsrc = list(it_.args[1].args[0]) if (it_ is not None and it_.op == "iterview" and it_.args[0] == "zip" and len(it_.args[1].args[0]) == 2) else None
 
+        def strip_pad(x):
+            # zip_longest(a, b, fillvalue=0): the digit is an item of a or the padding digit 0
+            x = unsnap(x)
+            return unsnap(x.args[0]) if x.op == "padded" and is_const(x.args[1]) and cval(x.args[1]) == 0 and not isinstance(cval(x.args[1]), bool) else x
+
+        tg_ = unsnap(lr.target) if getattr(lr, "target", None) is not None else None
+        if zsrc is None and tg_ is not None and tg_.op == "tuple" and len(tg_.args[0]) == 2 and all(unsnap(x).op == "elem" for x in tg_.args[0]):
+            # the digit pairs come from a list / reversed view of the zipped digit lists: the two sources are what the two loop targets are items of
+            zsrc = [strip_pad(unsnap(x).args[0]) for x in tg_.args[0]]
+
         def digit_signs(e):
             sa = sb = None
             seen = False
@@ -845,7 +973,7 @@ def mul_add_rules(prog, chk, pid):
                 dterm = unsnap(c.args[1])
                 which = None
                 if dterm.op == "elem" and zsrc is not None:
-                    src_ = unsnap(dterm.args[0])
+                    src_ = strip_pad(dterm.args[0])
                     which = "A" if src_ is unsnap(zsrc[0]) else ("B" if src_ is unsnap(zsrc[1]) else None)
                 if which is None:
                     continue
@@ -883,10 +1011,96 @@ def mul_add_rules(prog, chk, pid):
         why = "; ".join(bad[:3]) or "the eight non-zero digit combinations are not all handled (%s)" % sorted(seen_pairs, key=str)
     chk.require(ok, P("mul-add-combinations"), fi.qualname, "R = 2R; R += sign(dA)*A + sign(dB)*B over the interleaved NAF digits; mixed points -A-B, +A-B, -A+B, +A+B precomputed", where,
                 "every step of the combined multiplication adds exactly the combination of A and B that the two NAF digits call for", why)
+    mul_add_walk_rule(prog, chk, pid, fi)
     # fallbacks: zero multipliers / infinity / both precomputed / A + B = infinity reduce to the two single multiplications
     rets = [e for e in res.events if e.kind == "return" and e.stack == (fi.qualname,)]
     fb = [r for r in rets if unsnap(r.d["value"]).op in ("bin", "call") and "Mult" in show(r.d["value"], 3) or "__mul__" in show(r.d["value"], 3) or " * " in show(r.d["value"], 4)]
     chk.require(len(fb) >= 3, P("mul-add-fallbacks"), fi.qualname, "self*a, other*b, self*a + other*b on the degenerate paths", where, "degenerate cases fall back to separate multiplications", "expected the separate-multiplication fallbacks (found %d)" % len(fb))
+
+
+def mul_add_walk_rule(prog, chk, pid, fi):
+    """the two digit lists are walked together from the most significant end, the shorter one extended by zero digits at that end.
+    mul_add is interpreted on concrete control for given NAF digit lists (the NAF routine is replaced by the lists, the formula functions by
+    uninterpreted operations that log their arguments); the log must be: four mixed points, then per digit pair one doubling of the accumulator and, for a
+    non-zero pair, one addition of the point with the signs of the two digits -- whatever way the code pairs, pads and orders the lists."""
+    P = lambda s: "%s.%s" % (pid, s)
+    where = "%s:%d" % (fi.file, fi.lineno)
+    cases = [([1, 0, -1], [1]), ([-1], [0, 1, 0, 1]), ([1, 0, 1], [-1, 0, 1]), ([0, 1], [1, 0, 0, -1]), ([1], [-1]), ([0, 0, 1, 0, -1], [1, 0, 1])]
+    bad = None
+    n_steps = 0
+    for dA, dB in cases:
+        log = []
+
+        def h_naf(ex, fi_, args, kwargs, st, node, dA=dA, dB=dB):
+            t = show(args[-1], 12)
+            if ("self_mul" in t) == ("other_mul" in t):
+                raise Unsupported("cannot tell which multiplier a NAF expansion belongs to (%s)" % t[:80])
+            return ex.new_list(st, [C(d) for d in (dA if "self_mul" in t else dB)])
+
+        def h_op(name):
+            def h(ex, fi_, args, kwargs, st, node):
+                a = [unsnap(x) for x in args if unsnap(x).op != "ref" or ex.obj(st, x) is None or ex.obj(st, x).kind != "obj"]
+                r = mk("uf", name, len(log))
+                log.append((name, a))
+                return mk("tuple", (mk("uf", "c0", r), mk("uf", "c1", r), mk("uf", "c2", r)))
+            return h
+
+        ex = Exec(prog, policy=lambda e, f, d: False)
+        ex.sym_bytes = True
+        ex.summaries = {q: h_naf for q in prog.funcs if q.endswith("._naf") and "ellipticcurve" in q}
+        ex.summaries.update({q: h_op("add") for q in prog.funcs if q.endswith("PointJacobi._add")})
+        ex.summaries.update({q: h_op("double") for q in prog.funcs if q.endswith("PointJacobi._double")})
+        try:
+            res = ex.run(fi)
+        except Unsupported as u:
+            raise AnalysisError("mul_add not interpretable on concrete digit lists: %s" % u)
+
+        def comp_of(x, i):
+            x = unsnap(x)
+            return x.args[1].args[1] if x.op == "uf" and x.args[0] == "c%d" % i and unsnap(x.args[1]).op == "uf" else None
+
+        def sign_of(y):
+            y = unsnap(y)
+            return -1 if (y.op == "un" and y.args[0] == "USub") else 1
+
+        pre = [(k, a) for k, (nm, a) in enumerate(log) if nm == "add" and comp_of(a[0], 0) is None and not (is_const(a[0]) and is_const(a[2]))]
+        mixed = {}
+        for k, a in pre:
+            if len(a) >= 6 and show(a[0], 5).startswith("self.") and not show(a[3], 5).startswith("self."):
+                mixed[k] = (sign_of(a[1]), sign_of(a[4]))
+        steps = [(k, nm, a) for k, (nm, a) in enumerate(log) if k not in dict(pre)]
+        n = max(len(dA), len(dB))
+        want = []
+        for i in reversed(range(n)):
+            da, db = (dA[i] if i < len(dA) else 0), (dB[i] if i < len(dB) else 0)
+            want.append(("double", None))
+            if (da, db) != (0, 0):
+                want.append(("add", ((da > 0) - (da < 0), (db > 0) - (db < 0))))
+        got = []
+        prev = None
+        chain_ok = True
+        for k, nm, a in steps:
+            # the accumulator handed in is the previous result (initially the constants 0, 0, 1)
+            if prev is None:
+                chain_ok = chain_ok and all(is_const(x) for x in a[:3]) and [cval(x) for x in a[:3]] == [0, 0, 1]
+            else:
+                chain_ok = chain_ok and all(comp_of(a[i], i) == prev for i in range(3))
+            prev = k
+            if nm == "double":
+                got.append(("double", None))
+            else:
+                src = comp_of(a[3], 0)
+                if src is not None and src in mixed:
+                    got.append(("add", mixed[src]))
+                else:
+                    got.append(("add", (sign_of(a[4]), 0) if show(a[3], 5).startswith("self.") else (0, sign_of(a[4]))))
+        n_steps += len(steps)
+        if not chain_ok:
+            bad = bad or "digits %s / %s: the accumulator is not threaded through every doubling and addition" % (dA, dB)
+        elif got != want:
+            bad = bad or "digits %s / %s (least significant first): the steps are %s, expected %s" % (dA, dB, [g[1] if g[0] == "add" else "2R" for g in got][:12], [g[1] if g[0] == "add" else "2R" for g in want][:12])
+    chk.require(bad is None, P("mul-add-digit-walk"), fi.qualname, "%d digit-list pairs of different lengths, %d accumulator steps" % (len(cases), n_steps), where,
+                "both digit lists are walked from their most significant ends with the shorter one zero-extended there: per position one doubling, then the addition the digit pair calls for", bad or "")
 
 
 def poly_rules(prog, chk, pid):
@@ -1097,6 +1311,7 @@ def run(prog, chk, tier):
                        "The six formulas are checked as polynomial identities against the affine group law. OpenSSL agreement is not decided.")
     const_rules(prog, chk, "C17", tier)
     canon_rules(prog, chk, "C17")
+    point_equality_rule(prog, chk, "C17")
     sibling_rules(prog, chk, "C17")
     affine_point_rules(prog, chk, "C17")
     ecdh_rules(prog, chk, "C17")
